@@ -43,8 +43,10 @@ CLASS_KEY = {
     'dropped-entry': 'C04/same-layer-entry-dropped',
     'recreate': 'C04/recreate-after-whiteout',
     'implicit-dir': 'C04/implicit-parent-metadata',
+    'rejected-shadow': 'C04/rejected-entry-shows-older-file',
+    'rejected-parents': 'C04/rejected-entry-shows-older-file',
 }
-PRIORITY = ['opaque', 'wh-recreate', 'dropped-entry', 'recreate', 'implicit-dir']
+PRIORITY = ['opaque', 'wh-recreate', 'dropped-entry', 'recreate', 'implicit-dir', 'rejected-shadow', 'rejected-parents']
 DUP_KEY = 'C04/same-layer-duplicate-first-wins'
 REQ_KEY = 'C04/squash-requirer-writes-replaced-file'
 STATS = collections.Counter()
